@@ -9,6 +9,8 @@ import Proofs.Lemmas.C02Store
 import Proofs.Lemmas.C02Spec
 import Proofs.Lemmas.C02Files
 import Proofs.Lemmas.C02Reader
+import Proofs.Lemmas.C02Grammar
+import Proofs.Lemmas.C02Limit
 
 namespace C02
 open Fmt Spec.Format
@@ -156,6 +158,44 @@ example : labels [[97], [98], [97]] false = [[97, 35, 48], [98], [97, 35, 49]] :
 example : labels [[97], [97], [97, 35, 48]] false = [[97, 35, 48], [97, 35, 49], [97, 35, 48]] := by
   decide
 
+/-! ## The single-line grammar: the scanning algorithms compute the declarative definitions -/
+
+/-- **splitField_is_first_piece.** For every byte string (valid UTF-8 or not) `splitField` —
+ASCII bit-mask fast path, `DecodeRune` slow path — returns the runes before the first
+white-space rune and the text from the first non-space rune after it. -/
+theorem splitField_is_first_piece (uc : UC) (x : Bytes) :
+    splitField uc x =
+      (enc ((runes x).takeWhile (fun r => !isSp uc r)),
+       enc ((afterSp uc (runes x)).dropWhile (isSp uc))) :=
+  splitField_spec uc x
+
+/-- **fields_are_pieces.** The fields the `for { f, line = splitField(line) … }` loops of
+`parseBenchmarkLine` and `parseUnitLine` see are exactly the non-empty pieces between
+white-space runes after the first piece (`firstAndFields`). -/
+theorem fields_are_pieces (uc : UC) (x : Bytes) :
+    ((splitField uc x).1, fields uc (splitField uc x).2) =
+      ((firstAndFields uc x).1, (firstAndFields uc x).2.2) := by
+  rw [firstAndFields_eq, fields_after_split, splitField_spec]
+
+/-- **line_grammar.** On every byte string the model's line parsers are the declarative
+grammar of `Model/Spec/Format.lean`: key/value lines, benchmark lines (all error exits, the
+announcement skip), unit lines (which lines, which fields, which records and metadata). -/
+theorem line_grammar (O : Oracles) (line : Bytes) :
+    parseKeyValueLine O.uc line = kvLine O.uc line ∧
+    parseBenchmarkLine O line = benchLine O line ∧
+    (isUnitLine O.uc line).map (fields O.uc) = unitLine O.uc line ∧
+    (∀ fn n units rest,
+      ((parseUnitLine O fn n units rest).1, (parseUnitLine O fn n units rest).2.map ofRecNoResult) =
+        unitRecs O fn n units (fields O.uc rest)) :=
+  ⟨(kvLine_eq O.uc line).symm, (benchLine_eq O line).symm, (unitLine_eq O.uc line).symm,
+   fun fn n units rest => (unitRecs_eq O fn n units rest).symm⟩
+
+/-- No over-long forms: a non-ASCII lead byte never decodes to an ASCII rune (so `:` and the
+ASCII blanks are recognised only as themselves). -/
+theorem nonascii_never_ascii (c : UInt8) (rest : Bytes) (h : ¬ c < 0x80) :
+    0x80 ≤ (decodeRune (c :: rest)).1 :=
+  decodeRune_nonascii c rest h
+
 /-! ## The reader against the specification -/
 
 /-- **reader_refines_spec.** For every text, every file name and every instantiation of the
@@ -165,8 +205,8 @@ result's `Config` list as a map; every `Config` list has pairwise distinct keys 
 map); and the unit metadata accumulated at the end is the specification's. Hence: 1-based line
 numbers, the latest value per key, removal of keys set to the empty value, positioned errors,
 and nothing from ignored lines.
-(The token-level grammar of a single line is shared between model and specification, see
-`Model/Spec/Format.lean`; what is proved is everything between lines.) -/
+The specification shares no parsing code with the model: its single-line grammar is the
+declarative one of `Model/Spec/Format.lean` (`line_grammar` bridges the two). -/
 theorem reader_refines_spec (O : Oracles) (fileName text : Bytes) :
     (readAll O fileName text).map Rec.abs = (Spec.Format.read O fileName [] [] text).1.map SRec.abs ∧
     (∀ r, Rec.result r ∈ readAll O fileName text → (r.config.map Cfg.key).Nodup) ∧
@@ -174,11 +214,12 @@ theorem reader_refines_spec (O : Oracles) (fileName text : Bytes) :
       (Spec.Format.read O fileName [] [] text).2 := by
   have hl := reset_linked RState.zero fileName []
   obtain ⟨h1, h2, _, _⟩ := readLines_refines O (splitLines text) _ _ hl
+  rw [read_eq]
   refine ⟨?_, ?_, ?_⟩
-  · unfold readAll Spec.Format.read
+  · unfold readAll Spec.FormatM.read
     rw [h1, lines_eq]; rfl
   · exact readLines_nodup O (splitLines text) _ _ hl
-  · unfold Spec.Format.read
+  · unfold Spec.FormatM.read
     rw [h2, lines_eq]; rfl
 
 /-- **ignored_lines_inert.** Inserting a line that the format ignores (blank, foreign text,
@@ -193,6 +234,7 @@ theorem ignored_lines_inert (O : Oracles) (st : RState) (before after : List Byt
       readLines O st before ++ readLines O (finalState O st before) after ∧
     readLines O st (before ++ l :: after) =
       readLines O st before ++ (readLines O (finalState O st before) after).map (Rec.bump 1) := by
+  rw [classify_eq] at h
   refine ⟨readLines_append O before after st, ?_⟩
   rw [readLines_append]
   congr 1
@@ -259,23 +301,26 @@ theorem files_no_leak (O : Oracles) (fs : FS) (inputs : List Input) :
       let sp := readFiles O fs st.units stdin (inputs.map fun i => (i.label, i.path, i.isStdin))
       out.recs.map Rec.abs = sp.recs.map SRec.abs ∧ out.failed = sp.failed ∧
         out.st.units = sp.units := by
+  intro st stdin
+  simp only [readFiles_eq]
+  revert st stdin
   induction inputs with
   | nil => intro st stdin; exact ⟨rfl, rfl, rfl⟩
   | cons inp rest ih =>
     intro st stdin
-    simp only [Files.runFrom, readFiles, List.map_cons]
+    simp only [Files.runFrom, Spec.FormatM.readFiles, List.map_cons]
     cases hc : (if inp.isStdin = true then some stdin else fs.open inp.path) with
     | none => exact ⟨rfl, rfl, rfl⟩
     | some text =>
       simp only
       have hl := reset_linked st inp.path [(dotFile, inp.label)]
       obtain ⟨h1, h2, _, _⟩ := readLines_refines O (splitLines text) _ _ hl
-      have hread : Spec.Format.read O inp.path (CMap.assign [] dotFile inp.label false) st.units text =
-          readFrom O (st.reset inp.path [(dotFile, inp.label)]).fileName
+      have hread : Spec.FormatM.read O inp.path (CMap.assign [] dotFile inp.label false) st.units text =
+          Spec.FormatM.readFrom O (st.reset inp.path [(dotFile, inp.label)]).fileName
             (List.foldl (fun m kv => CMap.assign m kv.1 kv.2 false) [] [(dotFile, inp.label)])
             (st.reset inp.path [(dotFile, inp.label)]).units
             ((st.reset inp.path [(dotFile, inp.label)]).line + 1) (splitLines text) := by
-        unfold Spec.Format.read; rw [lines_eq]; rfl
+        unfold Spec.FormatM.read; rw [lines_eq]; rfl
       rw [hread]
       have := ih (finalState O (st.reset inp.path [(dotFile, inp.label)]) (splitLines text))
         (if inp.isStdin = true then [] else stdin)
@@ -307,5 +352,117 @@ theorem units_carry (O : Oracles) (st : RState) (l : Bytes) (fn : Bytes) (kvs : 
     · simp only
       exact parseUnitLine_extends O _ _ _ _
     · split <;> exact ⟨[], by simp⟩
+
+/-! ## Lines of 64 KiB and more -/
+
+/-- **reader_refines_spec_limited.** With `bufio.Scanner`'s token limit modelled
+(`Model/Fmt/ReaderLimit.lean`): for EVERY text — over-long lines included — the model reader
+delivers the specification's records for the lines before the first line of 65536 bytes or more,
+then stops with the specification's fatal error `file:lines-read: bufio.Scanner: token too long`;
+without such a line there is no error. No length precondition remains. -/
+theorem reader_refines_spec_limited (O : Oracles) (fileName text : Bytes) :
+    (readAllLim O fileName text).1.map Rec.abs = (readLimited O fileName [] [] text).1.map SRec.abs ∧
+    (readAllLim O fileName text).2 = (readLimited O fileName [] [] text).2.2 ∧
+    (finalState O (RState.zero.reset fileName []) (splitLinesLim text).1).units =
+      (readLimited O fileName [] [] text).2.1 := by
+  have hl := reset_linked RState.zero fileName []
+  obtain ⟨h1, h2, _, _⟩ := readLines_refines O (splitLinesLim text).1 _ _ hl
+  unfold readAllLim readLimited
+  simp only [readFrom_eq]
+  rw [← splitLinesLim_eq]
+  exact ⟨h1, rfl, h2⟩
+
+/-- **limit_inactive.** If no line reaches 65536 bytes the limited reader is the unlimited one
+of `reader_refines_spec`: same records, no error. -/
+theorem limit_inactive (O : Oracles) (fileName text : Bytes)
+    (h : ∀ p ∈ rawPieces text, p.length < lineLimit) :
+    readAllLim O fileName text = (readAll O fileName text, none) := by
+  unfold readAllLim readAll
+  rw [splitLinesLim_short text h]
+  rfl
+
+/-- The boundary in small: with a limit of `maxToken` bytes a run of `maxToken - 1` bytes is a
+line and a run of `maxToken` bytes is not (the correspondence run exercises 65534…65537-byte
+lines against the real `bufio.Scanner`). -/
+theorem limit_boundary (x : Bytes) :
+    (x.length < maxToken → (∀ c ∈ x, c ≠ 10) → splitLinesLim (x ++ [10]) = ([dropCR x], false)) ∧
+    (maxToken ≤ x.length → (∀ c ∈ x, c ≠ 10) → splitLinesLim (x ++ [10]) = ([], true)) := by
+  have key : ∀ (x cur : Bytes), (∀ c ∈ x, c ≠ 10) →
+      splitLinesLimAux cur (x ++ [10]) =
+        if maxToken ≤ (x.reverse ++ cur).length then ([], true)
+        else ([dropCR (x.reverse ++ cur).reverse], false) := by
+    intro x
+    induction x with
+    | nil =>
+      intro cur _
+      by_cases h : maxToken ≤ cur.length
+      · simp [splitLinesLimAux, h]
+      · simp [splitLinesLimAux, h]
+    | cons c x ih =>
+      intro cur h
+      have hc : (c == 10) = false := by simpa using h c (List.mem_cons_self ..)
+      simp only [List.cons_append, splitLinesLimAux, hc, Bool.false_eq_true, ↓reduceIte]
+      rw [ih (c :: cur) (fun d hd => h d (List.mem_cons_of_mem _ hd))]
+      simp
+  constructor
+  · intro hl hn
+    have := key x [] hn
+    simp only [List.append_nil, List.length_reverse, List.reverse_reverse] at this
+    unfold splitLinesLim; rw [this]
+    have : ¬ maxToken ≤ x.length := by omega
+    simp [this]
+  · intro hl hn
+    have := key x [] hn
+    simp only [List.append_nil, List.length_reverse] at this
+    unfold splitLinesLim; rw [this]; simp [hl]
+
+/-- **files_no_leak_limited.** `files_no_leak` with the limit: a file with an over-long line ends
+the whole run after the records before that line (no later file is opened), in the model exactly
+as in the specification; otherwise files follow one another as before. -/
+theorem files_no_leak_limited (O : Oracles) (fs : FS) (inputs : List Input) :
+    ∀ (st : RState) (stdin : Bytes),
+      let out := Files.runFromLim O fs st stdin inputs
+      let sp := readFilesLimited O fs st.units stdin (inputs.map fun i => (i.label, i.path, i.isStdin))
+      out.recs.map Rec.abs = sp.recs.map SRec.abs ∧ out.failed = sp.failed ∧ out.ioErr = sp.ioErr ∧
+        out.st.units = sp.units := by
+  induction inputs with
+  | nil => intro st stdin; exact ⟨rfl, rfl, rfl, rfl⟩
+  | cons inp rest ih =>
+    intro st stdin
+    simp only [Files.runFromLim, readFilesLimited, List.map_cons]
+    cases hc : (if inp.isStdin = true then some stdin else fs.open inp.path) with
+    | none => exact ⟨rfl, rfl, rfl, rfl⟩
+    | some text =>
+      simp only
+      have hl := reset_linked st inp.path [(dotFile, inp.label)]
+      obtain ⟨h1, h2, _, _⟩ := readLines_refines O (splitLinesLim text).1 _ _ hl
+      have hread : readLimited O inp.path (CMap.assign [] dotFile inp.label false) st.units text =
+          ((Spec.FormatM.readFrom O (st.reset inp.path [(dotFile, inp.label)]).fileName
+              (List.foldl (fun m kv => CMap.assign m kv.1 kv.2 false) [] [(dotFile, inp.label)])
+              (st.reset inp.path [(dotFile, inp.label)]).units
+              ((st.reset inp.path [(dotFile, inp.label)]).line + 1) (splitLinesLim text).1).1,
+           (Spec.FormatM.readFrom O (st.reset inp.path [(dotFile, inp.label)]).fileName
+              (List.foldl (fun m kv => CMap.assign m kv.1 kv.2 false) [] [(dotFile, inp.label)])
+              (st.reset inp.path [(dotFile, inp.label)]).units
+              ((st.reset inp.path [(dotFile, inp.label)]).line + 1) (splitLinesLim text).1).2,
+           if (splitLinesLim text).2 = true then
+             some (tooLongMsg (st.reset inp.path [(dotFile, inp.label)]).fileName (splitLinesLim text).1.length)
+           else none) := by
+        unfold readLimited
+        simp only [readFrom_eq]
+        rw [← splitLinesLim_eq]
+        rfl
+      rw [hread]
+      by_cases hlong : (splitLinesLim text).2 = true
+      · simp only [hlong, ↓reduceIte]
+        exact ⟨h1, by first | rfl | trivial, by first | rfl | trivial, h2⟩
+      · simp only [hlong, Bool.false_eq_true, ↓reduceIte]
+        have := ih (finalState O (st.reset inp.path [(dotFile, inp.label)]) (splitLinesLim text).1)
+          (if inp.isStdin = true then [] else stdin)
+        rw [h2] at this
+        obtain ⟨g1, g2, g3, g4⟩ := this
+        refine ⟨?_, g2, g3, g4⟩
+        simp only [List.map_append]
+        rw [h1, g1]
 
 end C02
